@@ -167,6 +167,13 @@ def execute(case: dict, scratch: str) -> dict:
     orig_bytes = ob.read_all_files(sim.zdir)
     orig_text = {k: v.decode("utf-8") for k, v in orig_bytes.items()}
     orig_canon = ob.canon_files(sim.zdir, sim.day)
+    zids = [n["zid"] for n in orig_canon["notes"].values() if n["zid"]]
+    if len(zids) != len(set(zids)):
+        # generator miss: a look-alike first word (`o P1 <mention> ...`) turned a
+        # mentioned ZID into the note's own one; duplicate ZIDs in the INPUT are
+        # outside the statement
+        rec.stat("skipped:generated-world-has-duplicate-zids")
+        return rec.result()
     _world_probes(case, orig_canon, rec)
 
     created = False
